@@ -308,7 +308,21 @@ pub fn gen_case(seed: u64, thorough: bool) -> Case {
     let gcfg = GenCfg { sys_root, ..Default::default() };
     let node = Rc::new(probe_dm::gen_node(&mut rng, &gcfg));
     let var1 = Rc::new(probe_dm::gen_variant(&mut rng, &node, &gcfg, 100));
-    let var2 = Rc::new(probe_dm::gen_variant(&mut rng, &node, &gcfg, 200));
+    // half of the time the second variant is the base node minus exactly ONE endpoint (all other
+    // endpoints stay, so whatever they hold must still be answered completely)
+    let var2 = if rng.bool() && node.endpoints.len() >= 2 {
+        let first = if sys_root { 1 } else { 0 };
+        if node.endpoints.len() > first {
+            let drop = first + rng.usize(node.endpoints.len() - first);
+            let mut v = (*node).clone();
+            v.endpoints.remove(drop);
+            Rc::new(v)
+        } else {
+            Rc::new(probe_dm::gen_variant(&mut rng, &node, &gcfg, 200))
+        }
+    } else {
+        Rc::new(probe_dm::gen_variant(&mut rng, &node, &gcfg, 200))
+    };
     let (requesters, acl) = gen_requesters_and_acl(&mut rng, &node);
     let cfg = WorldCfg {
         seed: rng.u64(),
@@ -415,10 +429,10 @@ pub fn gen_case(seed: u64, thorough: bool) -> Case {
                         req.event_min = Some(vec![rng.below(6)]);
                     }
                 }
-                let swap = if rng.chance(1, 8) {
+                let swap = if rng.chance(1, 4) {
                     let idx = (cur_idx + 1 + rng.usize(2)) % 3;
                     if rng.bool() {
-                        steps.push(Step::SwapAfterReads(rng.below(12) as u32, idx));
+                        steps.push(Step::SwapAfterReads(rng.below(40) as u32, idx));
                         None
                     } else {
                         Some((rng.usize(2), idx))
